@@ -101,6 +101,9 @@ type outJ struct {
 
 // decode feeds air[i] to the real decoder and identifies every reconstructed packet by its bytes.
 func (w *world) decode(p pkt) (outs []outJ, panicMsg string) {
+	if w.seen[p.Gid] == nil {
+		w.seen[p.Gid] = map[int]bool{}
+	}
 	defer func() {
 		if r := recover(); r != nil {
 			panicMsg = fmt.Sprint(r)
